@@ -78,6 +78,13 @@ def run_case(case):
             G = to_networkx_graph(gg, nodes={k: _N() for k in ep["lens"]})
             if set(G.nodes) != wn:
                 bad.append(f"episode {e} ({label}): nodes differ: extra={sorted(set(G.nodes) - wn)[:4]} missing={sorted(wn - set(G.nodes))[:4]}")
+            # the documented default (no node objects): the same vertices and edges
+            try:
+                G0 = to_networkx_graph(gg)
+                if set(G0.nodes) != wn or set(G0.edges) != we:
+                    bad.append(f"episode {e} ({label}): to_networkx_graph(graph) without node objects gives other vertices / edges than with them")
+            except Exception as ex0:
+                bad.append(f"episode {e} ({label}): to_networkx_graph(graph) without node objects raises {type(ex0).__name__}: {ex0}")
             for key, lst in ep["edges"].items():
                 u, v = key.split(">")
                 got_tr = [float(x) for x in np.asarray(gg.edges[(u, v)].ts_recv)[:len(lst)]]
@@ -156,6 +163,24 @@ def records_part(case):
                 got = {(u, v) for v, nr in fr.nodes.items() for u in nr.inputs}
                 if set(fr.nodes) != set(sub) or got != among:
                     bad.append(f"EpisodeRecord.filter({list(sub)}, filter_connections={flag}): nodes {sorted(fr.nodes)} connections {sorted(got)}; among the selected nodes: {sorted(among)}")
+    # a selection of CONNECTIONS: node objects that declare all recorded connections but one (for every connection in turn); with the flag on, that connection - and only that one - goes
+    for drop in conns:
+        nodes2 = {k: Nd(k, rate=10.0, delay=0.01, delay_dist=StaticDist.create(Deterministic(0.01))) for k in kinds}
+        for ci, key in enumerate(conns):
+            if key != drop:
+                u, v = key.split(">")
+                nodes2[v].connect(nodes2[u], blocking=False, skip=(u > v), delay=0.0, delay_dist=StaticDist.create(Deterministic(0.0)), name=(f"from_{u}" if ci % 2 == 0 else None))
+        for flag in (True, False):
+            checks += 2
+            want = want_e - {tuple(drop.split(">"))} if flag else want_e
+            fg = g.filter(nodes2, filter_edges=flag)
+            if set(fg.vertices) != set(kinds) or set(fg.edges) != want:
+                bad.append(f"Graph.filter(all nodes, {drop} not declared by the selection, filter_edges={flag}): edges {sorted(fg.edges)}; expected {sorted(want)}")
+            fr = rec.filter(nodes2, filter_connections=flag)
+            got = {(u, v) for v, nr in fr.nodes.items() for u in nr.inputs}
+            goti = {(u, v) for v, nr in fr.nodes.items() for u in nr.info.inputs}
+            if set(fr.nodes) != set(kinds) or got != want or goti != want:
+                bad.append(f"EpisodeRecord.filter(all nodes, {drop} not declared by the selection, filter_connections={flag}): connections {sorted(got)} / info {sorted(goti)}; expected {sorted(want)}")
     return bad, checks
 
 
